@@ -10,7 +10,8 @@ Transcription of `sudachi/src/dic/build/`:
                     `validateWid`, `wordInfoSize`, `lexSteps`, `posSteps`
 * `index.rs`      → `indexSteps` (the external `yada` builder enters through its preconditions)
 * `primitives.rs` → `lenSize`, `u16Size`, `u16Steps`, `arrSize`
-* `mod.rs`        → `compileSteps`, `build` (read_conn → read_lexicon → resolve → compile)
+* `mod.rs`        → `compileSteps`, `runOp`/`runOps` (any sequence of `read_conn`, `read_lexicon`,
+                    `resolve` calls on one `DictBuilder`), `build` (… → compile)
 
 Conventions.  Strings are `List Char` (Unicode scalar values); `i16`/`u32` are `Int`/`Nat` with the
 range checks of `from_str` explicit.  Every place where the Rust returns `Err` produces `Res.err`
@@ -23,7 +24,9 @@ The CSV record splitting (`csv` crate) is not modelled: the model starts from re
 `\d` (Unicode decimal digits, used by `WORD_ID_LITERAL`) is a parameter (`Ext.nd`).
 
 `Variant` selects between the code as it stands (`false`) and the behaviour after the planned
-repairs D1–D5 of DESIGN §2.7 (`true`); the harness picks the flags by probing the source text.
+repairs D1–D5 of DESIGN §2.7 (`true`); `rf` does the same for the `resolved` flag of the builder
+(`false` = only `resolve` touches it, `true` = `read_lexicon` clears it); the harness picks the
+flags by probing the source text.
 -/
 namespace Build
 
@@ -84,10 +87,16 @@ structure Variant where
   d3 : Bool
   d4 : Bool
   d5 : Bool
+  /-- the `resolved` flag of `DictBuilder`: `false` (`cur`) = the flag is only ever set, by
+  `resolve`; `true` (`fix`) = `read_lexicon` clears it, because the entries it adds may carry
+  unresolved inline splits -/
+  rf : Bool
 deriving DecidableEq, Repr
 
-def Variant.current : Variant := ⟨false, false, false, false, false⟩
-def Variant.repaired : Variant := ⟨true, true, true, true, true⟩
+def Variant.current : Variant := ⟨false, false, false, false, false, false⟩
+def Variant.repaired : Variant := ⟨true, true, true, true, true, true⟩
+/-- D1–D5 repaired, the `resolved` flag as the code has it (the tree when the flag defect was found) -/
+def Variant.staleFlag : Variant := ⟨true, true, true, true, true, false⟩
 
 /-- facts about external libraries: the code points (beyond ASCII digits) that regex `\d` accepts -/
 structure Ext where
@@ -902,16 +911,20 @@ inductive Outcome where
   | panic (s : Stage) (w : PanicWhy)
 deriving Repr
 
+/-- one call on the builder before `compile` -/
+inductive Op where
+  /-- `read_conn`: the matrix text as lines (`none` = the line is not UTF-8) -/
+  | conn (lines : List (Option Str))
+  /-- `read_lexicon`: the records delivered by the csv reader with their line numbers, and the
+  line at which the csv reader failed after them, if it did -/
+  | lex (recs : List (Nat × List Str)) (csvErr : Option Nat)
+  /-- `resolve()` -/
+  | resolve
+
 structure Input where
   base : Base
-  /-- matrix text as lines (`none` = the line is not UTF-8); `none` = `read_conn` is not called -/
-  conn : Option (List (Option Str))
-  /-- records delivered by the csv reader with their line numbers -/
-  recs : List (Nat × List Str)
-  /-- the csv reader failed after the records (line of the failure) -/
-  csvErr : Option Nat
-  /-- whether `resolve()` is called -/
-  doResolve : Bool
+  /-- the calls made on the builder, in order, before `compile` (the first failure ends the run) -/
+  ops : List Op
   descLen : Nat
   trieLen : Nat
 
@@ -940,37 +953,60 @@ def Res.toExcept {α : Type} (s : Stage) : Res α → Except Fail α
   | .err k l => .error (.err s k l)
   | .panic w => .error (.panic s w)
 
-/-- `read_conn`, when it is called -/
-def readConnOpt (v : Variant) : Option (List (Option Str)) → Res Conn
-  | none => .ok Conn.empty
-  | some lines => readConn v lines
+/-- `DictBuilder::new_system()` / `new_user(system)` -/
+def Builder.init (base : Base) : Builder :=
+  ⟨base, Conn.empty, base.maxLeft, base.maxRight, ⟨base.pos0, [], 0⟩, false⟩
 
-/-- `read_lexicon`: the records, then the failure of the csv reader if there was one -/
-def readLex (v : Variant) (x : Ext) (inp : Input) : Res LexState :=
-  match readLexicon v x ⟨inp.base.pos0, [], 0⟩ inp.recs with
+/-- `read_lexicon`: the records are appended to the entries read so far (POS table and the
+`unresolved` counter go on), then the failure of the csv reader if there was one.  The `resolved`
+flag: untouched in the code as it stands, cleared after the repair. -/
+def readLex (v : Variant) (x : Ext) (b : Builder) (recs : List (Nat × List Str)) (csvErr : Option Nat) :
+    Res Builder :=
+  match readLexicon v x b.lex recs with
   | .ok st =>
-    (match inp.csvErr with
+    (match csvErr with
     | some line => .err .Csv line
-    | none => .ok st)
+    | none => .ok { b with lex := st, resolved := if v.rf then false else b.resolved })
   | .err k l => .err k l
   | .panic w => .panic w
 
-/-- the builder after reading: `read_conn` overwrites the sizes ids are validated against -/
-def mkBuilder (inp : Input) (c : Conn) (st : LexState) : Builder :=
-  ⟨inp.base, c, if inp.conn.isSome then c.nl else inp.base.maxLeft,
-    if inp.conn.isSome then c.nr else inp.base.maxRight, st, false⟩
+/-- `read_conn`: replaces the matrix and overwrites the sizes ids are validated against -/
+def setConn (b : Builder) (c : Conn) : Builder := { b with conn := c, maxLeft := c.nl, maxRight := c.nr }
 
-def resolveOpt (doResolve : Bool) (b0 : Builder) : Res (Builder × Nat) :=
-  if doResolve then resolve b0 else .ok (b0, 0)
-
-/-- read_conn → read_lexicon → resolve: the builder handed to `compile`, or the failure -/
-def prepare (v : Variant) (x : Ext) (inp : Input) : Except Fail (Builder × Nat) :=
-  match (readConnOpt v inp.conn).toExcept .conn with
-  | .error f => .error f
-  | .ok c =>
-    match (readLex v x inp).toExcept .lex with
+/-- one call; the second component counts the splits `resolve` reported -/
+def runOp (v : Variant) (x : Ext) (s : Builder × Nat) : Op → Except Fail (Builder × Nat)
+  | .conn lines =>
+    match (readConn v lines).toExcept .conn with
     | .error f => .error f
-    | .ok st => (resolveOpt inp.doResolve (mkBuilder inp c st)).toExcept .resolve
+    | .ok c => .ok (setConn s.1 c, s.2)
+  | .lex recs csvErr =>
+    match (readLex v x s.1 recs csvErr).toExcept .lex with
+    | .error f => .error f
+    | .ok b => .ok (b, s.2)
+  | .resolve =>
+    match (resolve s.1).toExcept .resolve with
+    | .error f => .error f
+    | .ok (b, n) => .ok (b, s.2 + n)
+
+/-- the calls in order, stopping at the first failure -/
+def runOps (v : Variant) (x : Ext) : Builder × Nat → List Op → Except Fail (Builder × Nat)
+  | s, [] => .ok s
+  | s, op :: ops =>
+    match runOp v x s op with
+    | .error f => .error f
+    | .ok s' => runOps v x s' ops
+
+/-- position of the call that failed (`ops.length` when none did); only used for the answer line -/
+def failIdx (v : Variant) (x : Ext) : Builder × Nat → List Op → Nat → Nat
+  | _, [], i => i
+  | s, op :: ops, i =>
+    match runOp v x s op with
+    | .error _ => i
+    | .ok s' => failIdx v x s' ops (i + 1)
+
+/-- everything before `compile`: the builder handed to `compile`, or the failure -/
+def prepare (v : Variant) (x : Ext) (inp : Input) : Except Fail (Builder × Nat) :=
+  runOps v x (Builder.init inp.base, 0) inp.ops
 
 /-- `compile` into a sink accepting `limit` bytes -/
 def finish (v : Variant) (p : Builder × Nat) (descLen trieLen : Nat) (limit : Option Nat) : Outcome :=
@@ -979,7 +1015,7 @@ def finish (v : Variant) (p : Builder × Nat) (descLen trieLen : Nat) (limit : O
   | .panic w => .panic .compile w
   | .ok (n, d) => .ok n p.2 d
 
-/-- read_conn → read_lexicon → resolve → compile, stopping at the first failure -/
+/-- the calls on the builder, then `compile`, stopping at the first failure -/
 def build (v : Variant) (x : Ext) (inp : Input) (limit : Option Nat) : Outcome :=
   match prepare v x inp with
   | .error f => f.toOutcome
